@@ -1591,8 +1591,8 @@ MANIFEST = {
                   'replaced by a recorder; devices never raise RuntimeError, so the warning branches of remove_program are '
                   'not exercised), set/dict iteration order inside register_program is an input of the model chosen to '
                   'explain the observed outcome, Loop.get_measurement_windows of a never-registered twin as the program\'s '
-                  'own windows.  The per-(name, device) status is proved for the model but not yet evaluated by the '
-                  'observation-level check (check_framed still classifies per (side, name)).  Three defects of the '
+                  'own windows.  check_framed evaluates the per-(name, device) status too (trackers proved equal to the '
+                  'specification\'s, clauses proved to accept the model); the Python mirror does not.  Three defects of the '
                   'unchanged code were repaired (825add7, a019130 in round 1; bc650d0 in round 4: register_program forgot '
                   'the windows it takes out of a Loop, so registering the same object again silently registered none); '
                   'C18-rewire-stale is a listed known finding (refusing to re-wire a used name would break the documented '
